@@ -106,7 +106,7 @@ func init() {
 						a := vm.GetDetailText()
 						b := vm.GetDetailText()
 						ca, cb := canonDetail(a), canonDetail(b)
-						o["same"] = ca == cb || ca == "UNORDERED" || cb == "UNORDERED"
+						o["same"] = ca == cb
 					case "GetAsmText":
 						_ = vm.GetAsmText()
 					case "RetToString":
